@@ -21,7 +21,7 @@ func init() {
 	core.Register(&core.Check{
 		ID:    "C05",
 		Level: "exploration",
-		Rule: "a valid generated base program (effects at the very start and in every block, functions, an event handler, graphics calls) plus exactly one rule-breaking edit from a catalogue of 27 edit kinds (undeclared/unused variable, variable of a sibling if-branch, redeclaration incl. parameters, loop variables, built-in globals and function names, type mismatches, argument counts, missing return at the end and in a single branch of an if/else-if/else chain, unreachable code, break outside a loop, return value in a procedure/handler/top level, bare return in a function, unknown function, call of a procedure used as a value (element, map value, operand, argument, declaration), stray tokens after statements and after every kind of end, two statements on one line, non-bool condition), applied at every line where the rule applies; each case runs in-process through Evaluator.Run with the recording platform and, sampled, through the real `evy run` (with and without --svg-out). distinct = distinct (edit kind, line kind, error message shape)",
+		Rule: "a valid generated base program (effects at the very start and in every block, functions, an event handler, graphics calls) plus exactly one rule-breaking edit from a catalogue of 29 edit kinds (undeclared/unused variable, variable of a sibling if-branch, redeclaration incl. parameters, parameter without the colon between name and type, loop variables, built-in globals and function names, type mismatches, argument counts, missing return at the end and in a single branch of an if/else-if/else chain, unreachable code (directly after the terminating statement and after comment / blank lines), break outside a loop, return value in a procedure/handler/top level, bare return in a function, unknown function, call of a procedure used as a value (element, map value, operand, argument, declaration), stray tokens after statements and after every kind of end, two statements on one line, non-bool condition), applied at every line where the rule applies; each case runs in-process through Evaluator.Run with the recording platform and, sampled, through the real `evy run` (with and without --svg-out). distinct = distinct (edit kind, line kind, error message shape)",
 		Assumptions: []string{"base programs are produced by the C10 generator (accepted by construction; a rejected base is reported as a harness failure)"},
 		NeedsEvy:    true,
 		NumCases: func(tier string) int {
@@ -159,6 +159,8 @@ func replaceLine(ls []c05Line, at int, text ...string) string {
 	})
 }
 
+func l0(l c05Line) string { return l.indent }
+
 func simple(l c05Line) bool {
 	return l.kind == "decl" || l.kind == "assign" || l.kind == "call" || l.kind == "typed"
 }
@@ -249,6 +251,18 @@ func c05Edits() []c05Edit {
 				return []string{l.text}
 			}), true
 		}},
+		{"unreachable-code-after-comment", func(ls []c05Line, i int) (string, bool) {
+			if ls[i].kind != "return" && ls[i].kind != "break" {
+				return "", false
+			}
+			between := [][]string{{l0(ls[i]) + "// a comment"}, {""}, {l0(ls[i]) + "// one", "", l0(ls[i]) + "// two"}}[i%3]
+			return joinLines(ls, func(j int, l c05Line) []string {
+				if j == i {
+					return append(append([]string{l.text}, between...), l.indent+"print \"unreachable\"")
+				}
+				return []string{l.text}
+			}), true
+		}},
 		{"redeclaration", func(ls []c05Line, i int) (string, bool) {
 			if ls[i].kind != "decl" && ls[i].kind != "typed" {
 				return "", false
@@ -261,6 +275,26 @@ func c05Edits() []c05Edit {
 				return "", false
 			}
 			return insertAfter(ls, i, "a := 5"), true
+		}},
+		{"malformed-parameter", func(ls []c05Line, i int) (string, bool) {
+			// the ":" between a parameter's name and type replaced by another token
+			if ls[i].kind != "func" && ls[i].kind != "on" {
+				return "", false
+			}
+			t := ls[i].text
+			f := strings.Fields(t)
+			k := -1
+			for j := 2; j < len(f); j++ {
+				if strings.Contains(f[j], ":") && !strings.HasPrefix(f[j], ":") {
+					k = j
+				}
+			}
+			if k < 0 {
+				return "", false
+			}
+			rep := []string{"+", "\"\"", "=", ".", "-", ":=", "::"}[i%7]
+			f[k] = strings.Replace(f[k], ":", rep, 1)
+			return replaceLine(ls, i, ls[i].indent+strings.Join(f, " ")), true
 		}},
 		{"redeclare-loop-variable", func(ls []c05Line, i int) (string, bool) {
 			t := strings.TrimSpace(ls[i].text)
